@@ -131,6 +131,15 @@ def rejects(c, dep, n=2, iface='exp'):
         target = JointDistribution(s, mk[dep]())(x=data)
     with capture_gamma():
         c.expect_raise(f'unsupported_dependence_{dep}_is_rejected', lambda: Conjugate(target))
+        if iface == 'exp':
+            # history: a sampler that already holds a supported target (as inside a Gibbs loop) is given the unsupported one
+            good = JointDistribution(Gamma(alpha, beta, name='s'), Gaussian(mu, prec=lambda s: s, geometry=n, name='x'))(x=data)
+            smp = Conjugate(good)
+            def retarget(): smp.target = target
+            c.expect_raise(f'unsupported_dependence_{dep}_is_rejected_when_assigned_to_a_sampler_in_use', retarget)
+            smp2 = Conjugate()
+            def first(): smp2.target = target
+            c.expect_raise(f'unsupported_dependence_{dep}_is_rejected_as_first_target_of_an_empty_sampler', first)
 
 
 def direct(c, n=2):
